@@ -143,7 +143,14 @@ def c14(ctx, res):
                         "documents in the C01 domain carry the catalogue text in element, attribute and text-key position; structure preservation under the cast flag is part of C01's replay (cast on/off)"]
 
 
+def c16(ctx, res):
+    ctx.gen_replay(res, "det", "MC_C16.tla", "MC_C16_quick.cfg" if ctx.quick else "MC_C16_thorough.cfg", procs=16)
+    res.assumptions += ["hash iteration orders are varied through insertion order and map capacity (0, 1, 16, 200) and three repetitions; Go randomises map iteration per range statement anyway",
+                        "indented XML compared with the compact form up to inter-element white space; indented JSON through json.Compact"]
+
+
 PROPS = {
+    "C16": c16,
     "C14": c14,
     "C06": c06,
     "C05": c05,
